@@ -523,6 +523,7 @@ func c03R4(c *Ctx, m *runnerModel, tm *tokenMap, g *grammarInfo) {
 	}
 	// the storer field is set once, by the constructor, from the host's argument
 	stores := 0
+	ci := m.ctorInit(w)
 	for _, f := range w.FuncsIn(m.pkg) {
 		if f.Body == nil {
 			continue
@@ -532,24 +533,30 @@ func c03R4(c *Ctx, m *runnerModel, tm *tokenMap, g *grammarInfo) {
 			case *ast.AssignStmt:
 				for _, l := range q.Lhs {
 					if _, isSel := unparen(l).(*ast.SelectorExpr); isSel && lastField(info, l) == m.fStore {
+						if f == m.ctor && ci.isInitStore(m, q) {
+							continue // part of the construction: checked as the initial value below
+						}
 						stores++
 						c.ob("C03.R4", f.Name+"/storer-field-store#"+itoa(stores), w.Pos(q.Pos()), false, "the runner's storer field is reassigned after construction")
 					}
 				}
 			case *ast.CompositeLit:
-				if tv, ok := info.Types[q]; ok && tv.Type == types.Type(m.T) {
-					v := litField(q, m.fStore.Name())
-					okv := false
-					if id := identOf(v); id != nil && f == m.ctor {
-						if obj, ok := info.Uses[id].(*types.Var); ok && m.ctor.Sig().Params().Len() > 0 && obj == m.ctor.Sig().Params().At(0) {
-							okv = true
-						}
-					}
-					c.ob("C03.R4", f.Name+"/storer-field-init", w.Pos(q.Pos()), okv, map[bool]string{true: "the storer field is the constructor's storer argument (defaulted when nil)", false: "the runner is built with a storer other than the host's argument"}[okv])
+				if tv, ok := info.Types[q]; ok && tv.Type == types.Type(m.T) && f != m.ctor {
+					c.ob("C03.R4", f.Name+"/storer-field-init", w.Pos(q.Pos()), false, "a dialogue runner is built outside the constructor")
 				}
 			}
 			return true
 		})
+	}
+	{
+		v := ci.fields[m.fStore.Name()]
+		okv := false
+		if id := identOf(v); v != nil && id != nil {
+			if obj, ok := info.Uses[id].(*types.Var); ok && m.ctor.Sig().Params().Len() > 0 && obj == m.ctor.Sig().Params().At(0) {
+				okv = true
+			}
+		}
+		c.ob("C03.R4", m.ctor.Name+"/storer-field-init", w.Pos(ci.pos), okv, map[bool]string{true: "the storer field is the constructor's storer argument (defaulted when nil)", false: "the runner is built with a storer other than the host's argument"}[okv])
 	}
 	// the default applies only to a nil argument
 	if m.ctor != nil {
